@@ -6,7 +6,7 @@ package main
 //
 // case:   c04.hbstress <nstreams> <nputters> <run ms>
 // result: progress <1 iff events kept being taken> stalled <0|1> taken <0|1: at least nstreams events taken>
-//   Progress based, not throughput based: the run FAILS only if no event at all is taken for a whole second
+//   Progress based, not throughput based: the run FAILS only if no event at all is taken for two whole seconds
 //   while puts are pending or blocked.
 
 import (
@@ -99,7 +99,7 @@ func execHbStress(t *hx.Toks) string {
 		time.Sleep(10 * time.Millisecond)
 		if n := taken.Load(); n != last {
 			last, lastAt = n, time.Now()
-		} else if time.Since(lastAt) > time.Second {
+		} else if time.Since(lastAt) > 2*time.Second {
 			stalled = true
 			break
 		}
